@@ -108,7 +108,7 @@ def r1_frozen(rep, ctx):
                     res = res or Resolver(m, fn)
                     t = res.term(val)
                     ps = {p for p in params_in(t) if p != 0}
-                    fl = fields_in(t)
+                    fl = {f_ for f_ in fields_in(t) if m.lookup("Quantity", f_) is None}  # method names are not state
                     ok = not ps and fl <= (slots - MEMO_SLOTS) and not any(s[0] in ("name",) and s[1] not in ("tuple", "hash", "list", "OrderedDict", "dict") for s in walk(t) if s[0] == "name" and False)
                     rep.check(ok, "C07.R1", key, "memo slot %s is filled from frozen fields %s only" % (x.attr, sorted(fl)),
                               "memo slot %s is computed from %s, not only from frozen fields" % (x.attr, show(t, 160)), node=node, fn=fn)
@@ -265,11 +265,24 @@ def r5_interning(rep, ctx):
                 if isinstance(t, ast.Subscript) and is_cache(t.value):
                     ok = True
                     keyexprs.append(t.slice)
+            names = [t.id for t in st.targets if isinstance(t, ast.Name)]
+            if not ok and names:
+                # `q = Quantity(...)` followed by `cache[k] = q`: every path from the construction to an exit
+                # must pass such a store
+                stores = []
+                for s2 in own_statements(fn.node):
+                    if isinstance(s2, ast.Assign) and isinstance(s2.value, ast.Name) and s2.value.id in names:
+                        for t2 in s2.targets:
+                            if isinstance(t2, ast.Subscript) and is_cache(t2.value):
+                                stores.append((s2, t2.slice))
+                store_nodes = {cfg.node_of(s2) for s2, _ in stores}
+                if stores and cfg.EXIT not in cfg.reach(cfg.node_of(st), avoid=store_nodes):
+                    ok = True
+                    keyexprs += [k_ for _, k_ in stores if cfg.node_of(_) in cfg.reach(cfg.node_of(st))]
             if ok:
-                for t in st.targets:
-                    if isinstance(t, ast.Name):
-                        stored_names.setdefault(t.id, []).append(st)
-        rep.check(ok, "C07.R5", key, "the new Quantity is stored in the intern table by the same statement",
+                for n_ in names:
+                    stored_names.setdefault(n_, []).append(st)
+        rep.check(ok, "C07.R5", key, "the new Quantity is stored in the intern table on every path from its construction",
                   "a Quantity is constructed without being stored in the intern table: repeating the request yields a different object", node=st, fn=fn)
         for ke in keyexprs:
             _key_complete(rep, fn, res, cfg, st, ke, c)
@@ -306,12 +319,25 @@ def r5_interning(rep, ctx):
         st = cfg.ast[r]
         v = st.value
         key = "ObtainQuantity:ret:%s@%s" % (norm(ast.unparse(st)), _arm(cfg, r))
+        def cache_hit_term(x):
+            # cache[k]  or  cache.get(k) (a None result is excluded by a dominating `is not None` test)
+            if x[0] == "sub" and any(y[0] == "attr" and y[2] == "quantities_cache" for y in alternatives(x[1])):
+                return True
+            if x[0] == "call" and x[1][0] == "attr" and x[1][2] == "get" and any(y[0] == "attr" and y[2] == "quantities_cache" for y in alternatives(x[1][1])) and len(x[2]) == 1:
+                from ..facts import facts as nfacts, none_fact
+                for f_ in nfacts(cfg, r):
+                    nf = none_fact(f_)
+                    if nf and res.term(nf[0]) == x and not nf[1]:
+                        return True
+            return False
         if isinstance(v, ast.Subscript) and is_cache(v.value):
+            rep.ok("C07.R5", key, "returns a cache hit", node=st, fn=fn)
+        elif isinstance(v, ast.Name) and v.id not in stored_names and all(cache_hit_term(x) for x in alternatives(res.term(v))):
             rep.ok("C07.R5", key, "returns a cache hit", node=st, fn=fn)
         elif isinstance(v, ast.Name) and v.id in stored_names:
             # the reaching definitions of the name at this return are all caching assignments
             t = res.term(v)
-            ok = all(x[0] == "call" and x[1] == ("name", "Quantity") for x in alternatives(t))
+            ok = all((x[0] == "call" and x[1] == ("name", "Quantity")) or cache_hit_term(x) for x in alternatives(t))
             rep.check(ok, "C07.R5", key, "returns the object that was just stored in the intern table",
                       "may return an object that was not stored in the intern table (%s)" % show(t, 160), node=st, fn=fn)
         else:
@@ -328,6 +354,15 @@ def _key_complete(rep, fn, res, cfg, st, keyexpr, ctor):
     kparams = params_in(kt)
     # weak updates of containers the key is built from (key.append(caption))
     knames = {x.id for x in ast.walk(keyexpr) if isinstance(x, ast.Name)}
+    grew = True
+    while grew:  # locals the key is computed from (derived_key = tuple(key))
+        grew = False
+        for st2 in own_statements(fn.node):
+            if isinstance(st2, ast.Assign) and any(isinstance(t_, ast.Name) and t_.id in knames for t_ in st2.targets):
+                more = {x.id for x in ast.walk(st2.value) if isinstance(x, ast.Name)} - knames
+                if more:
+                    knames |= more
+                    grew = True
     for n in own_nodes(fn.node):
         if isinstance(n, ast.Call) and isinstance(n.func, ast.Attribute) and n.func.attr in ("append", "extend", "add", "insert") \
                 and isinstance(n.func.value, ast.Name) and n.func.value.id in knames:
